@@ -110,22 +110,23 @@ func (c *PollCtx) Polls() int {
 
 // SRun is the observation of one in-process parse with a shipped parser.
 type SRun struct {
-	Events   []genrun.Event // only with KeepEvents
-	N        int            // number of events
-	H        uint64         // rolling hash over the events (genrun.XHash)
-	Last     genrun.Event
-	EH       []genrun.ErrCall
-	OK       bool
-	ErrKind  string // syntax | ctx | other
-	Err      string
-	S, E     int
-	Polls    int
-	PollEv   []int // events reported before each poll
-	CancelEv int   // events reported when the cancellation was issued (-1: none/async)
-	SawPoll  int   // number of the first poll answered with a closed channel (0: none)
-	SawEv    int   // events reported before that poll
-	Panic    string
-	Val      string
+	Events    []genrun.Event // only with KeepEvents
+	N         int            // number of events
+	H         uint64         // rolling hash over the events (genrun.XHash)
+	Last      genrun.Event
+	EH        []genrun.ErrCall
+	OK        bool
+	ErrKind   string // syntax | ctx | other
+	Err       string
+	S, E      int
+	Polls     int
+	PollEv    []int // events reported before each poll
+	CancelEv  int   // events reported when the cancellation was issued (-1: none/async)
+	CancelOff int   // offset of the last token the lexer had produced at that moment (-1: unknown)
+	SawPoll   int   // number of the first poll answered with a closed channel (0: none)
+	SawEv     int   // events reported before that poll
+	Panic     string
+	Val       string
 }
 
 // SOpts selects parser, entry point and schedules.
@@ -154,12 +155,14 @@ var ShippedCancellable = []string{"js", "tm", "test"}
 
 // RunShipped runs one parse; panics of the parser are caught.
 func RunShipped(text string, o SOpts) (res *SRun) {
-	res = &SRun{H: genrun.XHashInit, CancelEv: -1}
+	res = &SRun{H: genrun.XHashInit, CancelEv: -1, CancelOff: -1}
+	curOff := func() int { return -1 } // set below, per parser
 	ctx := NewPollCtx(o.CancelAtPoll)
 	ctx.OnPoll = func(n int) {
 		res.PollEv = append(res.PollEv, res.N)
 		if o.CancelAtPoll > 0 && n == o.CancelAtPoll {
 			res.CancelEv = res.N
+			res.CancelOff = curOff()
 		}
 	}
 	ctx.OnSaw = func(n int) {
@@ -170,6 +173,7 @@ func RunShipped(text string, o SOpts) (res *SRun) {
 	if o.CancelAtEvent < 0 {
 		ctx.Cancel()
 		res.CancelEv = 0
+		res.CancelOff = 0
 	}
 	record := func(t string, f, s, e int) {
 		res.N++
@@ -184,6 +188,7 @@ func RunShipped(text string, o SOpts) (res *SRun) {
 		}
 		if o.CancelAtEvent > 0 && res.N == o.CancelAtEvent {
 			res.CancelEv = res.N
+			res.CancelOff = curOff()
 			ctx.Cancel()
 		}
 	}
@@ -213,6 +218,7 @@ func RunShipped(text string, o SOpts) (res *SRun) {
 		var p js.Parser
 		l := func(nt js.NodeType, offset, endoffset int) { record(nt.String(), 0, offset, endoffset) }
 		s.Init(text, l)
+		curOff = streamLexerOffset(&s)
 		s.SetDialect(js.Dialect(o.Dialect))
 		p.Init(func(se js.SyntaxError) bool { return onErr(se.Line, se.Offset, se.Endoffset) }, l)
 		switch o.Entry {
@@ -233,6 +239,7 @@ func RunShipped(text string, o SOpts) (res *SRun) {
 		var p tm.Parser
 		l := func(nt tm.NodeType, offset, endoffset int) { record(nt.String(), 0, offset, endoffset) }
 		s.Init(text, l)
+		curOff = streamLexerOffset(&s)
 		p.Init(func(se tm.SyntaxError) bool { return onErr(se.Line, se.Offset, se.Endoffset) }, l)
 		if o.Entry == 0 {
 			err = p.ParseFile(ctx, &s)
@@ -246,6 +253,7 @@ func RunShipped(text string, o SOpts) (res *SRun) {
 		var lx test.Lexer
 		var p test.Parser
 		lx.Init(text)
+		curOff = func() int { o, _ := lx.Pos(); return o }
 		p.Init(func(nt test.NodeType, flags test.NodeFlags, offset, endoffset int) {
 			record(nt.String(), int(flags), offset, endoffset)
 		})
@@ -284,6 +292,17 @@ func RunShipped(text string, o SOpts) (res *SRun) {
 		}
 	}
 	return res
+}
+
+// streamLexerOffset returns a reader of the (unexported) lexer position inside a
+// shipped TokenStream: the offset of the last token the lexer produced. Reading
+// an unexported integer field through reflection is permitted; nothing is modified.
+func streamLexerOffset(stream interface{}) func() int {
+	f := reflect.ValueOf(stream).Elem().FieldByName("lexer").FieldByName("tokenOffset")
+	if !f.IsValid() {
+		return func() int { return -1 }
+	}
+	return func() int { return int(f.Int()) }
 }
 
 // TreeNode is a node of a dumped tree.
